@@ -34,6 +34,10 @@ def cases(tier):
                 if route in ('cls', 'wp') and sp == 'DLPOLY':
                     continue
                 out.append(dict(route=route, cutoff=6.5 if n % 2 else 10.0, nr=n, pots=[['A', 'B', 'buck']], spelling=sp, reject=True))
+    # the rule does not depend on what is tabulated: an empty potential list
+    for n in (5, 6, 7, 9, 10, 11):
+        for route in ('cls', 'wp'):
+            out.append(dict(route=route, cutoff=6.5, nr=n, pots=[], spelling='DL_POLY', reject=True))
     return out
 
 
